@@ -102,6 +102,8 @@ static inline void fiber_manager_switch_to(fiber_manager_t* manager,
   fiber_manager_do_maintenance();
 }
 
+static __thread bool should_check_events = true;
+
 void fiber_manager_yield(fiber_manager_t* manager) {
   assert(fiber_manager_state == FIBER_MANAGER_STATE_STARTED);
   assert(manager);
@@ -110,6 +112,16 @@ void fiber_manager_yield(fiber_manager_t* manager) {
   while (1) {
     manager->yield_count += 1;
     const fiber_state_t state = current_fiber->state;
+
+    // events (descriptor readiness, timer ticks) are otherwise polled only
+    // when a kernel thread runs out of fibers. a fiber that keeps yielding - a
+    // polling loop - would starve every fiber of this thread that is blocked
+    // on a descriptor or sleeping. only a plain yield may poll: a fiber on its
+    // way to sleep may hold one of the event spinlocks
+    if (state == FIBER_STATE_RUNNING && (manager->yield_count & 255) == 0 &&
+        should_check_events) {
+      fiber_poll_events();
+    }
 
     fiber_t* const new_fiber = fiber_scheduler_next(manager->scheduler);
     if (new_fiber) {
@@ -146,8 +158,6 @@ void* fiber_load_symbol(const char* symbol) {
 }
 
 static __thread fiber_manager_t* fiber_the_manager = NULL;
-
-static __thread bool should_check_events = true;
 
 fiber_manager_t* fiber_manager_get() { return fiber_the_manager; }
 
